@@ -30,4 +30,9 @@ AdvertiseDiscoveryResult build_transport_advertise_candidates(const Config& conf
 // callers can decide whether to auto-expose the control plane.
 std::optional<Config::AdvertiseCandidate> select_public_advertise_candidate(const AdvertiseDiscoveryResult& result);
 
+// True when the host is unspecified, loopback, private, link-local, CGNAT,
+// documentation/benchmark, multicast or reserved (IPv4, IPv6 or IPv4-mapped),
+// i.e. must not be auto-published unless private advertising is allowed.
+bool is_non_routable_advertise_host(const std::string& host);
+
 }  // namespace ephemeralnet::network
